@@ -83,6 +83,9 @@ func readKeyFile(filename string) ([]keyProvider, error) {
 	}
 
 	for _, key := range keys {
+		if key == nil {
+			return nil, fmt.Errorf("null key in %s", filename)
+		}
 		keyProviders = append(keyProviders, keyProvider{key: key})
 	}
 
